@@ -247,11 +247,14 @@ def C18(run):
 
 
 def C19(run):
-    run.deductive(keys=[U + 'pauli_combine', ST + 'StabilizerState.sample', ST + 'StabilizerState.copy', ST + 'zero_state'], lemmas=['ipowsum_ext'])
+    run.deductive(keys=[U + 'pauli_combine', ST + 'StabilizerState.sample', ST + 'StabilizerState.copy', ST + 'zero_state', U + 'stabilizer_expect', ST + 'StabilizerState.expect#list'],
+                  lemmas=['ipowsum_ext', 'sample_expect_one'])
     run.bounded_check('c19_sampling', _b().c19_sampling, Nmax=3, count=q(run, 15, 300))
     return 'other', ('deductive (all N, every draw): every row returned by StabilizerState.sample is the ordered product of the ACTIVE stabilizers selected by a bit row of the drawn '
                      'matrix, with the phase of that product (ghost witness: the local C; through the contract of pauli_combine), the state is not modified; copy / zero_state as used '
-                     'by the snapshot code are faithful / valid; bounded: expectation +1 of every sampled operator, uniformity, density-matrix '
+                     'by the snapshot code are faithful / valid; lemma sample_expect_one (with member_expect, ordg_slice, ordp_slice: inductions over the product): what sample returns - by its contract - has expectation +1 '
+                     'by the contract of stabilizer_expect (it commutes with every stabilizer and standby row, the anticommuting active destabilizers are exactly the partners of the selected rows, so the '
+                     'reconstructed sign is its own phase) for every N and r < N; bounded: the same by running both, r = N, uniformity, density-matrix '
                      'expansion, classical-shadow snapshots')
 
 
@@ -290,6 +293,6 @@ TECHNIQUE = {
     'C16': 'deductive validity for every RNG draw (z3): random_pair, random_pauli / random_pauli_map, pauli_diagonalize2, the recursive sampler random_clifford (induction over its recursion), random_clifford_map, the random states and the resampling gate; bounded validity of the circuit constructors and chi-square counting on finite groups',
     'C17': 'deductive frame conditions (modifies clauses, freshness of results) of every function under contract (z3); bounded snapshot checks for copies and queries of the class layer',
     'C18': 'deductive contracts (z3): front / pauli_is_onsite / pauli_diagonalize1 / pauli_diagonalize2 / condense / clifford_rotation_gate (gate of G = rotation by G); bounded exhaustive diagonalisation check, SBRG',
-    'C19': 'deductive contracts (z3): StabilizerState.sample returns signed ordered products of the active stabilizers for every draw (ghost witness), pauli_combine; bounded membership by expectation / expansion / shadow checks',
+    'C19': 'deductive contracts (z3): StabilizerState.sample returns signed ordered products of the active stabilizers for every draw (ghost witness), pauli_combine, stabilizer_expect; lemma chain: such a product has expectation +1; bounded uniformity / expansion / shadow checks',
     'C20': 'deductive contracts (z3): pauli_tokenize, the parser pauli() on code arrays / letter lists / strings (loop invariant, all lengths), tokenize-then-parse and string-vs-codes lemmas, unit multiplication, negation, selection by integer / slice / boolean mask / index array; exhaustive parse / print round trips per N for dictionaries and printing',
 }
